@@ -218,6 +218,17 @@ func (e *ex) check(mode, fb, sni string, s served) core.Result {
 	if pk, ok := leaf.PublicKey.(*rsa.PublicKey); !ok || !pk.Equal(signer.Public()) {
 		return fail("c06:key-mismatch", "private key held does not match the leaf's public key (host %q)", host)
 	}
+	// "backed by a key the proxy holds so the handshake completes": crypto/tls must be willing to use the
+	// certificate for every kind of client an RSA leaf can serve, not only for Go's own ClientHello
+	// (which offers every scheme): TLS 1.2 clients with PKCS#1 v1.5 only / PSS only, and TLS 1.3 (PSS).
+	for _, cp := range clientProfiles {
+		hi := &tls.ClientHelloInfo{CipherSuites: cp.suites, SupportedVersions: cp.versions, SignatureSchemes: cp.schemes,
+			SupportedCurves: []tls.CurveID{tls.X25519, tls.CurveP256}, SupportedPoints: []uint8{0}}
+		if err := hi.SupportsCertificate(s.tlsc); err != nil {
+			return fail("c06:unusable:"+cp.name, "crypto/tls refuses the certificate for %q for a %s client: %v", host, cp.name, err)
+		}
+		core.Count("profile:" + cp.name)
+	}
 	if len(leaf.DNSNames)+len(leaf.IPAddresses)+len(leaf.EmailAddresses)+len(leaf.URIs) != 1 {
 		return fail("c06:extra-names", "leaf for %q carries DNSNames=%q IPs=%v (exactly one name expected)", host, leaf.DNSNames, leaf.IPAddresses)
 	}
@@ -535,6 +546,21 @@ func (e *ex) do(op string) core.Result {
 		return core.Result{Impl: "ip " + core.Hex(ip.To16())}
 	}
 	return core.Result{Impl: "bad-op"}
+}
+
+var rsaSuites12 = []uint16{tls.TLS_ECDHE_RSA_WITH_AES_128_GCM_SHA256, tls.TLS_ECDHE_RSA_WITH_AES_256_GCM_SHA384}
+
+// clientProfiles: the ClientHello shapes an RSA leaf has to serve (no ServerName: the name is checked separately).
+var clientProfiles = []struct {
+	name     string
+	versions []uint16
+	suites   []uint16
+	schemes  []tls.SignatureScheme
+}{
+	{"tls12-pkcs1v15-only", []uint16{tls.VersionTLS12}, rsaSuites12, []tls.SignatureScheme{tls.PKCS1WithSHA256, tls.PKCS1WithSHA384, tls.PKCS1WithSHA512}},
+	{"tls12-pss-only", []uint16{tls.VersionTLS12}, rsaSuites12, []tls.SignatureScheme{tls.PSSWithSHA256, tls.PSSWithSHA384, tls.PSSWithSHA512}},
+	{"tls12-sha1-and-sha256", []uint16{tls.VersionTLS12}, rsaSuites12, []tls.SignatureScheme{tls.PKCS1WithSHA1, tls.PKCS1WithSHA256}},
+	{"tls13", []uint16{tls.VersionTLS13}, []uint16{tls.TLS_AES_128_GCM_SHA256}, []tls.SignatureScheme{tls.PSSWithSHA256, tls.PSSWithSHA384, tls.PSSWithSHA512}},
 }
 
 func sniKind(sni string) string {
